@@ -585,3 +585,27 @@ def _statics_obligations(chk):
         chk.obligation("C20_no_shared_state: offending items", False, "\n".join(lines) or out[-1500:])
         chk.cov["c20_static_offenders"] = lines
     return good
+
+
+def brand_obligations(chk):
+    """C20 (and C12): every callback-taking function of arena.rs quantifies the arena brand with `for<'gc>` on its
+    closure bound (theorem C12_callbacks over the regenerated signature table): without the binder two arenas
+    share a brand and pointers of one can be rooted in the other. Returns True iff it holds."""
+    with locked():
+        ok, _ = prepare(chk, "C20 brand")
+        if not ok:
+            return False
+        res = build_and_audit(chk, "Props/C12.v", ["C12_callbacks"])
+        good = all(res.values())
+        chk.trusted.append("translator-api: signatures of arena.rs (binder structure of the closure bounds); rustc's HRTB generativity")
+        if not good:
+            evals = [("callbacks", "map (fun f => (fs_name f, sb (callback_ok decls f))) (callback_fns arena_fns)")]
+            try:
+                okr, rep, out = model_report("c20_brand_report", evals)
+            except Exception as e:  # pragma: no cover
+                okr, rep, out = False, {}, str(e)
+            bad = [k for k, v in rep.get("callbacks", []) if v != "true"]
+            chk.obligation("C12_callbacks: callback-taking functions whose closure bound does not bind the brand with for<'gc>", False,
+                           ", ".join(bad) or out[-1200:])
+            chk.cov["c20_brand_offenders"] = bad
+        return good
